@@ -259,6 +259,13 @@ def chi2_compare(ctx, ga, gb, sig="roundtrip:chi2"):
             return False
         tol = 0.0
         for e in ga._edges:
+            if isinstance(e, gs.EdgeOdometry) and isinstance(e.estimate, gs.PoseSE3):
+                eq = e.estimate - (e.vertices[1].pose - e.vertices[0].pose)
+                if abs(float(eq[6])) < 1e-6:
+                    # 180-degree residual: the sign of the rotational error is genuinely undefined there, so chi2 with
+                    # translation-rotation cross terms is not a function of the physical graph at this measure-zero set
+                    ctx.event("chi2-skipped:180deg-residual")
+                    return False
             err = np.atleast_1d(np.array(e.calc_error(), dtype=float))
             S_ = max([float(np.max(np.abs(np.asarray(v.pose)[: len(v.pose.position)]))) for v in e.vertices] + [1.0])
             om = np.abs(np.asarray(e.information, dtype=float))
